@@ -166,6 +166,9 @@ def run_dp(case, stt):
                                         "to_stokes of the same array read in the other basis")):
             close(np.asarray(o).astype(np.complex128), r.astype(np.complex128), "computed in one graph: " + w, 4 * max(atol, ptol))
         stt.label("joint_graph_both_bases")
+    # ... and only by name: anything else is refused rather than answered with some component
+    for bad in ("", "IQ", "QU", "UV", "IQUV", "i", "X", "II", "VI", " I"):
+        must_raise("Stokes component %r" % bad, lambda: st_[bad], (KeyError, IndexError, ValueError, TypeError))
     kdn = case["kind"]
     if kdn in ("pureL", "pureR") and power.size and power.max() > 0:
         sgn = 1 if kdn == "pureL" else -1
@@ -190,7 +193,7 @@ def seq_case(draw):
     base["dask"] = False
     ops = draw(st.lists(st.sampled_from(["to_stokes", "to_linear", "to_circular", "to_intensity", "chain", "inplace_scale", "inplace_add", "set_pol", "refused_assignment"]),
                         min_size=2, max_size=6))
-    return {"base": base, "ops": ops, "dask_too": draw(st.booleans())}
+    return {"base": base, "ops": ops, "dask_too": draw(st.booleans()), "pick": draw(st.integers(0, 50))}
 
 
 def run_seq(case, stt):
@@ -199,6 +202,7 @@ def run_seq(case, stt):
     stt.label("dask" if case.get("dask_too") else "numpy")
     first = {}
     data = data.copy()
+    pol = spec["pol"]  # the basis the object is in, by the history of valid assignments (the model; never read back from the object)
     for op in case["ops"]:
         if op in ("inplace_scale", "inplace_add", "set_pol", "refused_assignment"):
             # sanctioned changes of the object between conversions: later conversions must describe the CURRENT samples / basis
@@ -210,10 +214,12 @@ def run_seq(case, stt):
                     np.add(z, 1, out=z)
                     data = data + 1
                 elif op == "refused_assignment":
-                    G.bad_assign(z, len(first) * 5 + len(case["ops"]) + case["ops"].index(op))
+                    G.bad_assign(z, len(first) * 5 + len(case["ops"]) + case["ops"].index(op) + case.get("pick", 0), prefer="pol_type")
                 else:
-                    z.pol_type = "circular" if z.pol_type == "linear" else "linear"
-            twin = G.build(dict(spec, pol=str(z.pol_type)), data=data.copy())
+                    pol = "circular" if pol == "linear" else "linear"
+                    z.pol_type = pol
+            check(z.pol_type == pol, "after {}: pol_type reads {!r}, the last valid assignment was {!r}", op, z.pol_type, pol)
+            twin = G.build(dict(spec, pol=pol), data=data.copy())
             for name in ("to_stokes", "to_linear", "to_circular", "to_intensity"):
                 with lib(name + " after " + op):
                     got, ref = arr(getattr(z, name)()), arr(getattr(twin, name)())
